@@ -106,6 +106,16 @@ def strip_ref(ty):
     return ty
 
 
+def same_type(ty, path):
+    """type strings print foreign items by their visible (re-exported) path, definitions by
+    their def path: equal when crate and final segment agree"""
+    ty = re.sub(r'<.*$', '', ty)
+    if ty == path:
+        return True
+    a, b = ty.split('::'), path.split('::')
+    return a[0] == b[0] and a[-1] == b[-1]
+
+
 def enum_dispatches(fn, enum_path):
     """Switches on the discriminant of a value whose type is exactly `enum_path`
     (possibly behind references). Returns [(bb, term)]."""
@@ -119,7 +129,7 @@ def enum_dispatches(fn, enum_path):
         for st in b['s']:
             if st[1][0] == 'disc' and st[0][0] == t[1][1][0] and not st[0][1]:
                 pl = st[1][1]
-                if all(x == '*' for x in pl[1]) and strip_ref(fn.locals[pl[0]]) == enum_path:
+                if all(x == '*' for x in pl[1]) and same_type(strip_ref(fn.locals[pl[0]]), enum_path):
                     out.append((i, t))
     return out
 
